@@ -25,7 +25,7 @@ Verdict(tr) ==
     <<"not_every_address_tried", ~allRefused \/ Len(connects) = cfg.naddr>>,
     <<"application_send_raised_non_websocket_error",
         \A i \in 1..n : tr[i].k = "call" /\ tr[i].res # "ok" => tr[i].wserr>>,
-    <<"socket_left_open", endr.k = "end" /\ \A i \in 1..Len(endr.socks) : endr.socks[i].closed \/ ~endr.socks[i].alive>>,
+    <<"socket_left_open", endr.k = "end" /\ \A i \in 1..Len(endr.socks) : endr.socks[i].closed \/ (~endr.socks[i].handed /\ ~endr.socks[i].alive)>>,
     <<"iteration_did_not_stop", \E i \in 1..n : tr[i].k = "stop">>
   >>)
 PrefixOK(tr) == TRUE
